@@ -142,7 +142,7 @@ func c01attrDiff(a, b map[string]string) (string, string) {
 }
 
 // c01attrCheck: observe, save+open, observe, second cycle, observe.
-func c01attrCheck(c *c01attrCtx, cols, rows []int, how int) (sig, what string) {
+func c01attrCheck(r *Run, c *c01attrCtx, cols, rows []int, how int) (sig, what string) {
 	defer func() {
 		if p := recover(); p != nil {
 			sig, what = "attr:panic", fmt.Sprint(p)
@@ -150,11 +150,23 @@ func c01attrCheck(c *c01attrCtx, cols, rows []int, how int) (sig, what string) {
 	}()
 	_ = c01obsAttrs(c.f, cols, rows) // warm-up (GetCellStyle creates rows/cells)
 	before := c01obsAttrs(c.f, cols, rows)
+	pre := ""
+	if r != nil {
+		pre = xl.VerifC01Cols(c.f, "Sheet1")
+	}
 	g, err := c01save(c.f, how)
 	if err != nil {
 		return "attr:save-error", err.Error()
 	}
 	defer g.Close()
+	if r != nil && strings.HasPrefix(pre, "ok ") {
+		spec, post := strings.TrimPrefix(pre, "ok "), xl.VerifC01Cols(g, "Sheet1")
+		if n, _ := strconv.Atoi(strings.Fields(spec)[0]); n <= 4000 {
+			ln := r.Op("hmcols "+spec, post)
+			r.Stat("hmcols:" + strings.SplitN(post, " ", 2)[0])
+			c01colsOracle(r, "hmcols", spec, post, ln)
+		}
+	}
 	after := c01obsAttrs(g, cols, rows)
 	if k, d := c01attrDiff(before, after); k != "" {
 		return "attr:save-open-changes:" + k, d
@@ -208,7 +220,7 @@ func c01attrPair(r *Run, kind string, x, ymask, side, order, block int) {
 	line := fmt.Sprintf("attrpair %s %d %d %d %d %d", kind, x, ymask, side, order, block)
 	r.Case(line, true)
 	r.Stat("attrpair:" + kind + ":" + c01attrNames[x])
-	if sig, what := c01attrCheck(c, cols, rows, x+ymask); sig != "" {
+	if sig, what := c01attrCheck(r, c, cols, rows, x+ymask); sig != "" {
 		r.Fail(sig, fmt.Sprintf("neighbouring %ss differing only in %s: %s", kind, c01attrNames[x], what), 0, strings.Join(c.log, "\n")+"\n"+line)
 	}
 }
@@ -235,7 +247,7 @@ func c01attrPairs(r *Run) {
 }
 
 // random attribute history over a block of 6 columns and 6 rows
-func c01attrRun(seed uint64, idx, nops int) (sig, what string, log []string) {
+func c01attrRun(r *Run, seed uint64, idx, nops int) (sig, what string, log []string) {
 	rng := NewRng(seed*7777 + uint64(idx)*131 + 5)
 	c := c01newAttrCtx()
 	defer func() { c.f.Close() }()
@@ -273,12 +285,12 @@ func c01attrRun(seed uint64, idx, nops int) (sig, what string, log []string) {
 		cols = append(cols, base+k)
 		rows = append(rows, 1+k)
 	}
-	sig, what = c01attrCheck(c, cols, rows, idx)
+	sig, what = c01attrCheck(r, c, cols, rows, idx)
 	return sig, what, c.log
 }
 
 func c01attrHist(r *Run, seed uint64, idx, nops int) {
-	sig, what, log := c01attrRun(seed, idx, nops)
+	sig, what, log := c01attrRun(r, seed, idx, nops)
 	r.Case(fmt.Sprintf("attrhist:%d:%d:%d", seed, idx, nops), true)
 	r.Stat("attrhist")
 	if sig == "" {
@@ -289,7 +301,7 @@ func c01attrHist(r *Run, seed uint64, idx, nops int) {
 		if idx%3 == 1 {
 			break // the reopen point depends on nops
 		}
-		if s2, w2, l2 := c01attrRun(seed, idx, n); s2 == sig {
+		if s2, w2, l2 := c01attrRun(nil, seed, idx, n); s2 == sig {
 			best, what, log = n, w2, l2
 			break
 		}
